@@ -18,7 +18,7 @@ func init() {
 		Explanation: "lexical well-formedness of what the DIMACS/OPB printers emit: (R18.1) in every printer function, text items emitted by a loop (string accumulation, writes to a writer/builder, slices handed to strings.Join) meet at a boundary that holds whitespace, so two tokens of the whitespace-tokenised formats are never glued together; " +
 			"(R18.2) the clause count of every `p cnf` header is the sum of the trip counts of the loops that write one non-comment line each; (R18.3) every fixed token in the printers' constant texts is a token the corresponding parser compares against (or a sign accepted by strconv.Atoi).",
 		NotDecided: "equality of models and costs after re-parsing; numeric values printed; the parser's reaction to each token.",
-		Rules:      []ruleFn{ruleR18_1, ruleR18_2, ruleR18_3, ruleR18_4, ruleR18_5, ruleR18_6, ruleR18_7},
+		Rules:      []ruleFn{ruleR18_1, ruleR18_2, ruleR18_3, ruleR18_4, ruleR18_5, ruleR18_6, ruleR18_7, ruleR18_8, ruleR18_9},
 	})
 }
 
@@ -1845,6 +1845,19 @@ func checkHeader(w *World, t *textCtx, eff **Effects, fn *ssa.Function, h *ssa.C
 				return 2, fmt.Sprintf("header format %q uses a verb other than %%d", format)
 			}
 			nverbs++
+		}
+	}
+	// a self-contained rendering: literal clause count followed, in the same text, by exactly that many lines
+	// (`"p cnf %d 1\n0\n"`, the unsatisfiable problem)
+	if nverbs == 1 {
+		if i := strings.Index(format, "\n"); i >= 0 {
+			head := strings.Fields(format[:i])
+			rest := strings.Split(strings.TrimSuffix(format[i+1:], "\n"), "\n")
+			if len(head) == 4 && head[0] == "p" && head[2] == "%d" {
+				if cnt, err := strconv.Atoi(head[3]); err == nil && format[i+1:] != "" && cnt == len(rest) {
+					return 0, fmt.Sprintf("self-contained text: the header announces %d clause line(s) and the same text holds exactly that many", cnt)
+				}
+			}
 		}
 	}
 	if !ok || nverbs != 2 || len(args) != 2 {
